@@ -509,7 +509,9 @@ func (n *Net) KeyIndexOfValIndex(vi int) int {
 // ByzProposal builds a block on top of a correct node's view of the chain, signs a proposal for (height, round) with
 // validator idx's key and returns the proposal and part messages.  mutate may change the block before it is cut into parts.
 func (n *Net) ByzProposal(idx int, view *Node, height uint64, round int, polRound int, polID types.BlockID, salt uint64, mutate func(*types.Block)) ([]consensus.ConsensusMessage, *types.Block) {
-	b := view.App.CreateBlock(height, 1000, n.GenDoc.ConsensusParams.BlockSize.MaxGas, 1569409200+height*10)
+	// the wall clock like an honest proposer (the real application refuses blocks much older than their parent; the
+	// scripted application ignores the argument)
+	b := view.App.CreateBlock(height, 1000, n.GenDoc.ConsensusParams.BlockSize.MaxGas, uint64(time.Now().Unix()))
 	if b == nil {
 		return nil, nil
 	}
